@@ -165,13 +165,6 @@ example : manders [0, 1, 0, 1] [1, 2, 3, 4] (some 0) (some 0) = (1, 3 / 5) := by
 
 /-! ## block shuffling -/
 
-theorem inSelected_false_iff (b0 b1 nb0 nb1 : Nat) (idx : List Nat) (i j : Nat) :
-    inSelected b0 b1 nb0 nb1 idx i j = false ↔
-      (¬ (i / b0 < nb0 ∧ j / b1 < nb1) ∨ i / b0 * nb1 + j / b1 ∉ idx) := by
-  unfold inSelected
-  by_cases h0 : i / b0 < nb0 <;> by_cases h1 : j / b1 < nb1 <;>
-    by_cases hm : i / b0 * nb1 + j / b1 ∈ idx <;> simp [h0, h1, hm]
-
 /-- **Block shuffling is a permutation of whole blocks.**  For every `nidx` that is a permutation
 of the selected flat block indices (what `numpy.random.permutation` returns), the result is the
 working array read through a map `φ` of pixel coordinates that (1) is a bijection of the
@@ -208,6 +201,19 @@ theorem shuffle_is_bijection {α : Type} (x : Img α) (mask : Nat → Nat → Bo
     exact phi_offset_block G i j h0 h1
   · intro i j h
     exact phi_fix i j ((inSelected_false_iff _ _ _ _ _ _ _).mp h)
+
+/-- a 2×4 image, 2×2 blocks, full mask: both blocks are selected, `[1, 0]` swaps them -/
+example : ([1, 0] : List Nat).Perm
+    (shuffleIdx (⟨2, 4, fun i j => ((i * 4 + j : Nat) : Rat)⟩ : Img Rat) (fun _ _ => true) 2 2 false false) := by
+  decide
+
+example : (pixels 2 4).map (fun q => (shuffleBlocks (⟨2, 4, fun i j => ((i * 4 + j : Nat) : Rat)⟩ : Img Rat)
+      (fun _ _ => true) 2 2 false false [1, 0]).get q.1 q.2) = [2, 3, 0, 1, 6, 7, 4, 5] := by
+  decide +kernel
+
+/-- pad mode, 1×5 line, block 2: the padded sixth pixel is an edge copy, the last block is partial -/
+example : shuffleIdx (⟨1, 5, fun _ j => (j : Rat)⟩ : Img Rat) (fun _ _ => true) 1 2 true false = [0, 1, 2] := by
+  decide
 
 /-- pixels outside the shuffled blocks never move (any `nidx`, both modes) -/
 theorem outside_never_move {α : Type} (x : Img α) (mask : Nat → Nat → Bool) (b0 b1 : Nat)
@@ -303,6 +309,121 @@ theorem values_conserved {α : Type} (x : Img α) (mask : Nat → Nat → Bool) 
 
 example : conservedApplies (⟨4, 6, fun _ _ => (0 : Rat)⟩ : Img Rat) 2 3 true = true ∧
     conservedApplies (⟨5, 7, fun _ _ => (0 : Rat)⟩ : Img Rat) 2 3 false = true := by decide
+
+/-- 1-D arrays (one row, block height 1): the shuffled line is a rearrangement of the line -/
+theorem values_conserved_1d {α : Type} (x : Img α) (mask : Nat → Nat → Bool) (b : Nat)
+    (padMode part : Bool) (nidx : List Nat) (hrow : x.n0 = 1) (hb : 0 < b)
+    (hp : nidx.Perm (shuffleIdx x mask 1 b padMode part))
+    (happ : conservedApplies x 1 b padMode = true) :
+    ((List.range x.n1).map (fun j => (shuffleBlocks x mask 1 b padMode part nidx).get 0 j)).Perm
+      ((List.range x.n1).map (fun j => x.get 0 j)) := by
+  have := values_conserved x mask 1 b padMode part nidx (by omega) hb hp happ
+  simp only [pixels, hrow, List.range_one, List.flatMap_cons, List.flatMap_nil, List.append_nil,
+    List.map_map] at this
+  exact this
+
+/-- **The model's result satisfies the relation the check evaluates on the implementation's
+result** (`specOutside`, `specBlocks`, `specConserved`), for every permutation `nidx`. -/
+theorem model_satisfies_spec (x : Img Rat) (mask : Nat → Nat → Bool) (b0 b1 : Nat)
+    (padMode part : Bool) (nidx : List Nat) (hb0 : 0 < b0) (hb1 : 0 < b1)
+    (hp : nidx.Perm (shuffleIdx x mask b0 b1 padMode part)) :
+    specOutside x (shuffleBlocks x mask b0 b1 padMode part nidx) mask b0 b1 padMode part = true ∧
+    specBlocks x (shuffleBlocks x mask b0 b1 padMode part nidx) mask b0 b1 padMode part = true ∧
+    (conservedApplies x b0 b1 padMode = true →
+      specConserved x (shuffleBlocks x mask b0 b1 padMode part nidx) = true) := by
+  refine ⟨?_, ?_, ?_⟩
+  · unfold specOutside
+    simp only [List.all_eq_true, Bool.or_eq_true, decide_eq_true_eq]
+    intro q hq
+    rw [mem_pixels] at hq
+    by_cases hs : inSelected b0 b1 (nBlocks (prepare x mask b0 b1 padMode).N0 b0)
+        (nBlocks (prepare x mask b0 b1 padMode).N1 b1)
+        (selected (prepare x mask b0 b1 padMode).M b0 b1 (nBlocks (prepare x mask b0 b1 padMode).N0 b0)
+          (nBlocks (prepare x mask b0 b1 padMode).N1 b1) part) q.1 q.2 = true
+    · exact Or.inl hs
+    · right
+      exact outside_never_move x mask b0 b1 padMode part nidx q.1 q.2 hq.1 hq.2
+        (by simpa [shuffleIdx] using hs)
+  · unfold specBlocks
+    simp only [List.all_eq_true, List.any_eq_true, Bool.or_eq_true, decide_eq_true_eq]
+    intro f hf
+    obtain ⟨hg, hblk⟩ := blocks_from_input x mask b0 b1 padMode part nidx hp f hf
+    refine ⟨_, hg, ?_⟩
+    intro o ho
+    rw [mem_pixels] at ho
+    right
+    exact hblk o.1 o.2 ho.1 ho.2
+  · intro happ
+    unfold specConserved
+    rw [beq_iff_eq]
+    exact sortR_eq_of_perm _ _ (values_conserved x mask b0 b1 padMode part nidx hb0 hb1 hp happ)
+
+/-! ## the probability loop: every rᵢ is computed over the pixels of r -/
+
+/-- Every image of the shuffle sequence has the shape of `y`, so `shuffledᵢ[mask]` reads exactly
+the coordinates `{q | mask q}` that `y[mask]` (and `x[mask]`) read; and there is one rᵢ per shuffle. -/
+theorem same_pixels (x y : Img Rat) (mask : Nat → Nat → Bool) (b : Nat) (part : Bool)
+    (sigmas : List (List Nat)) :
+    (probSteps x y mask b part sigmas).length = sigmas.length ∧
+    ∀ yi ∈ shuffleSeq y mask b part sigmas,
+      yi.n0 = y.n0 ∧ yi.n1 = y.n1 ∧
+      masked yi mask = (((pixels y.n0 y.n1).filter (fun q => mask q.1 q.2)).map (fun q => yi.get q.1 q.2)) := by
+  have hm : ∀ a : Img Rat, masked a mask
+      = ((pixels a.n0 a.n1).filter (fun q => mask q.1 q.2)).map (fun q => a.get q.1 q.2) := by
+    intro a
+    unfold masked
+    generalize pixels a.n0 a.n1 = l
+    induction l with
+    | nil => rfl
+    | cons q l ih =>
+      by_cases hq : mask q.1 q.2 = true
+      · simp [hq, ih]
+      · simp [hq, ih]
+  have hshape : ∀ (sg : List (List Nat)) (y : Img Rat), ∀ yi ∈ shuffleSeq y mask b part sg,
+      yi.n0 = y.n0 ∧ yi.n1 = y.n1 := by
+    intro sg
+    induction sg with
+    | nil => intro y yi h; simp [shuffleSeq] at h
+    | cons s ss ih =>
+      intro y yi h
+      simp only [shuffleSeq, List.mem_cons] at h
+      rcases h with rfl | h
+      · exact ⟨rfl, rfl⟩
+      · have := ih _ yi h
+        exact ⟨this.1, this.2⟩
+  have hlen : ∀ (sg : List (List Nat)) (y : Img Rat), (shuffleSeq y mask b part sg).length = sg.length := by
+    intro sg
+    induction sg with
+    | nil => intro y; rfl
+    | cons s ss ih => intro y; simp [shuffleSeq, ih]
+  refine ⟨by simp [probSteps, hlen], ?_⟩
+  intro yi hyi
+  obtain ⟨h0, h1⟩ := hshape sigmas y yi hyi
+  refine ⟨h0, h1, ?_⟩
+  rw [hm yi, h0, h1]
+
+/-- each in-place shuffle of the loop only rearranges the image: every `shuffledᵢ` has the pixel
+values of `y` (as a multiset), whatever the mask and the block size -/
+theorem loop_conserves (y : Img Rat) (mask : Nat → Nat → Bool) (b : Nat) (part : Bool)
+    (sigmas : List (List Nat)) (hb : 0 < b)
+    (hp : ∀ s ∈ sigmas, s.Perm (shuffleIdx y mask b b false part)) :
+    ∀ yi ∈ shuffleSeq y mask b part sigmas,
+      ((pixels y.n0 y.n1).map (fun q => yi.get q.1 q.2)).Perm ((pixels y.n0 y.n1).map (fun q => y.get q.1 q.2)) := by
+  induction sigmas generalizing y with
+  | nil => intro yi h; simp [shuffleSeq] at h
+  | cons s ss ih =>
+    intro yi h
+    simp only [shuffleSeq, List.mem_cons] at h
+    have hs := hp s (by simp)
+    have step := values_conserved y mask b b false part s hb hb hs (by simp [conservedApplies])
+    rcases h with rfl | h
+    · exact step
+    · have hidx : shuffleIdx (shuffleBlocks y mask b b false part s) mask b b false part
+          = shuffleIdx y mask b b false part :=
+        shuffleIdx_shape _ _ mask b b false part rfl rfl
+      have := ih (shuffleBlocks y mask b b false part s)
+        (fun s' hs' => by rw [hidx]; exact hp s' (by simp [hs'])) yi h
+      exact this.trans step
 
 /-! ## the shuffle-based probability is a fraction -/
 
